@@ -270,7 +270,7 @@ func runBehaviour(env *drive.Env, w *world, beh *behaviour) {
 		}
 		ev := map[string]interface{}{"ev": "dec", "ty": c.name, "b": ints(b), "mut": mut, "acc": acc, "same": same, "re": ints(re), "nre": nre,
 			"sacc": sacc, "scons": scons, "ssame": ssame,
-			"gacc": gacc, "alloc": alloc, "pan": pan, "cex": cex, "ent": w.entries(c.name, b)}
+			"gacc": gacc, "alloc": alloc, "pan": pan, "cex": cex, "ent": w.entries(c.name, b, acc && pan == "")}
 		env.Emit(ev)
 	}
 	for _, k := range beh.Cases {
